@@ -11,15 +11,13 @@ From Miller Require Import Base.Bytes Base.Record gen.Gen_Flags C02.FlagSpec.
 Lemma gen_wellformed_true : gen_wellformed = true.
 Proof. vm_compute; reflexivity. Qed.
 
-Lemma keystroke_savers_ok_partial_true : keystroke_savers_ok_partial = true.
+Lemma keystroke_savers_ok_true : keystroke_savers_ok = true.
 Proof. vm_compute; reflexivity. Qed.
 
-(* the full-strength check fails on the pinned tree; the exclusion list is exact (every excluded spelling is in the table
-   and really differs from its expansion) *)
-Lemma keystroke_savers_ok_false : keystroke_savers_ok = false.
+Lemma keystroke_savers_prefix_ok_partial_true : keystroke_savers_prefix_ok_partial = true.
 Proof. vm_compute; reflexivity. Qed.
 
-Lemma ks_known_bad_exact_true : ks_known_bad_exact = true.
+Lemma ks_prefix_sensitive_exact_true : ks_prefix_sensitive_exact = true.
 Proof. vm_compute; reflexivity. Qed.
 
 Lemma io_pairs_ok_true : io_pairs_ok = true.
@@ -70,23 +68,62 @@ Proof.
 Qed.
 
 (* ------------------------------------------------------------------ (1) keystroke savers *)
-Lemma ks_partial_all :
-  forallb (fun s => mem s ks_known_bad || ks_check s) keystroke_spellings = true.
+Lemma ks_all : forallb ks_check keystroke_spellings = true.
 Proof. vm_compute; reflexivity. Qed.
 
-(* every documented keystroke saver of the table, except the listed findings, is equivalent to its documented
-   expansion, in each context *)
-Lemma keystroke_savers_equal_expansion_partial :
-  forall s e t, In s all_spellings -> expansion_of_name s = Some e -> ~ In s ks_known_bad -> In t ctx_tails ->
+(* every documented keystroke saver of the table is equivalent to its documented expansion, in each (tail) context *)
+Lemma keystroke_savers_equal_expansion :
+  forall s e t, In s all_spellings -> expansion_of_name s = Some e -> In t ctx_tails ->
   equivalent_in_context [s] e t.
 Proof.
-  intros s e t Hs He Hnb Ht.
+  intros s e t Hs He Ht.
   assert (Hin : In s keystroke_spellings).
   { unfold keystroke_spellings. apply filter_In. split; [exact Hs|]. rewrite He. reflexivity. }
-  pose proof (forallb_In _ _ ks_partial_all s Hin) as H. cbv beta in H.
-  destruct (mem s ks_known_bad) eqn:Em.
+  pose proof (forallb_In _ _ ks_all s Hin) as H. cbv beta in H.
+  unfold ks_check in H. rewrite He in H. exact (equiv_ctx_spec _ _ H t Ht).
+Qed.
+
+(* prefix contexts *)
+Lemma equiv_pre_spec p a b : equiv_pre p a b = true -> equivalent_in_context (p ++ a) (p ++ b) [].
+Proof.
+  unfold equiv_pre, equivalent_in_context. rewrite !app_nil_r.
+  destruct (effect (p ++ a)) as [x|]; [|discriminate]. destruct (effect (p ++ b)) as [y|]; [|discriminate].
+  intros H. exists x, y. auto.
+Qed.
+
+Lemma ks_prefix_partial_all :
+  forallb (fun s => mem s ks_prefix_sensitive || ks_prefix_check s) keystroke_spellings = true.
+Proof. vm_compute; reflexivity. Qed.
+
+Lemma keystroke_savers_prefix_partial :
+  forall s e p, In s all_spellings -> expansion_of_name s = Some e -> ~ In s ks_prefix_sensitive -> In p ctx_prefixes ->
+  equivalent_in_context (p ++ [s]) (p ++ e) [].
+Proof.
+  intros s e p Hs He Hnb Hp.
+  assert (Hin : In s keystroke_spellings).
+  { unfold keystroke_spellings. apply filter_In. split; [exact Hs|]. rewrite He. reflexivity. }
+  pose proof (forallb_In _ _ ks_prefix_partial_all s Hin) as H. cbv beta in H.
+  destruct (mem s ks_prefix_sensitive) eqn:Em.
   - apply mem_In in Em. contradiction.
-  - cbn [orb] in H. unfold ks_check in H. rewrite He in H. exact (equiv_ctx_spec _ _ H t Ht).
+  - cbn [orb] in H. unfold ks_prefix_check in H. rewrite He in H.
+    exact (equiv_pre_spec _ _ _ (forallb_In _ _ H p Hp)).
+Qed.
+
+Lemma ks_c2t_present : mem (B "--c2t") all_spellings = true.
+Proof. vm_compute; reflexivity. Qed.
+Lemma ks_c2t_expansion : expansion_of_name (B "--c2t") = Some [B "--icsv"; B "--otsv"].
+Proof. vm_compute; reflexivity. Qed.
+Lemma ks_c2t_prefix_differs : equiv_pre [B "--ofs"; B ";"] [B "--c2t"] [B "--icsv"; B "--otsv"] = false.
+Proof. vm_compute; reflexivity. Qed.
+
+Lemma keystroke_savers_prefix_refuted :
+  exists s e p, In s all_spellings /\ expansion_of_name s = Some e /\ In p ctx_prefixes /\ equiv_pre p [s] e = false.
+Proof.
+  exists (B "--c2t"), [B "--icsv"; B "--otsv"], [B "--ofs"; B ";"]. split; [|split; [|split]].
+  - apply mem_In. exact ks_c2t_present.
+  - exact ks_c2t_expansion.
+  - right. now left.
+  - exact ks_c2t_prefix_differs.
 Qed.
 
 (* the quantification above is not empty and covers the documented matrix *)
@@ -122,25 +159,6 @@ Proof.
   - apply mem_In. exact ks_T_present.
 Qed.
 
-(* the full-strength statement is false of the pinned tree: a keystroke saver of the table differs from its documented
-   expansion already in the empty context *)
-Lemma ks_t2n_present : mem (B "--t2n") all_spellings = true.
-Proof. vm_compute; reflexivity. Qed.
-Lemma ks_t2n_expansion : expansion_of_name (B "--t2n") = Some [B "--itsv"; B "--onidx"].
-Proof. vm_compute; reflexivity. Qed.
-Lemma ks_t2n_differs : equiv_in [B "--t2n"] [B "--itsv"; B "--onidx"] [] = false.
-Proof. vm_compute; reflexivity. Qed.
-
-Lemma keystroke_savers_refuted :
-  exists s e, In s all_spellings /\ expansion_of_name s = Some e /\ equiv_in [s] e [] = false.
-Proof.
-  exists (B "--t2n"), [B "--itsv"; B "--onidx"]. split; [|split].
-  - apply mem_In. exact ks_t2n_present.
-  - exact ks_t2n_expansion.
-  - exact ks_t2n_differs.
-Qed.
-
-(* ------------------------------------------------------------------ (2) --X = --iX --oX *)
 Lemma io_pairs_all : forallb io_pair_check io_pair_names = true.
 Proof. vm_compute; reflexivity. Qed.
 Lemma io_pairs_present :
